@@ -32,7 +32,7 @@ ASSUME = [
     "identifier strings are ASCII printable without whitespace; ids and labels of the theorems consist of word characters",
     "current revisions handed to the relative forms are full revision ids",
 ]
-RULE = ("8 fixed histories (design-time witnesses, label-propagation shapes) + seeded random histories (quick 90, thorough 700) "
+RULE = ("8 fixed histories (design-time witnesses, label-propagation shapes) + seeded random histories (quick 90, thorough 1400) "
         "of 1-5 revisions (thorough: up to 6) whose ids are strings of length 2-6 over {a,b,c} built to "
         "collide on prefixes (ids that are prefixes of other ids and of labels), 0-2 branch labels (sometimes colliding with an id "
         "or each other -> load error), random load order, 0-2 down revisions, occasional depends_on; for each history EVERY "
@@ -257,7 +257,7 @@ def generate(tier, seed):
     rnd = random.Random(seed * 7919 + 16)
     for revs in FIXED:
         yield from cases_for(revs, rnd)
-    ngraphs = 90 if tier == "quick" else 700
+    ngraphs = 90 if tier == "quick" else 1400
     for k in range(ngraphs):
         nmax = 5 if tier == "quick" or k % 4 else 6
         revs = rand_history(rnd, nmax, long_ids=(k % 3 == 0))
